@@ -3,7 +3,7 @@
 From Coq Require Import ZArith List.
 From MomoCommon Require Import GenPrelude.
 From C13 Require Gen_Open2N2_m1 Gen_Open2N2_m2 Gen_Open2N2_nf SameCode.
-From C13 Require Gen_Open2N2 Gen_OpenN1 Gen_Open8 Gen_Open2N2_ops Gen_OpenN1_ops Open2N2_Proofs OpenN1_Proofs ProbeSeq OpenTable BucketOps OpenInstances.
+From C13 Require Gen_Open2N2 Gen_OpenN1 Gen_Open8 Gen_Open2N2_ops Gen_OpenN1_ops Gen_HSAdd Gen_BucketBase Open2N2_Proofs OpenN1_Proofs ProbeSeq OpenTable BucketOps HSAddRefine OpenInstances.
 Import ListNotations.
 Local Open Scope Z_scope.
 
@@ -166,6 +166,44 @@ Theorem C13_open8_openn1_insert_fails_only_if_all_buckets_full :
   forall b, 0 <= b < 2 ^ n -> (Z.to_nat mc <= length (OpenTable.bk _ s b))%nat.
 Proof. exact OpenInstances.open8_full_only_if_all_full. Qed.
 Print Assumptions C13_open8_openn1_insert_fails_only_if_all_buckets_full.
+
+(* HashSet::pvAddNogrow<false> regenerated from HashSet.h (Gen_HSAdd: the probing loop with its "Hash table is full" throw, then
+   AddCrt on the receiving bucket and UpdateMaxProbe(probe) on the start bucket; buckets are handles, the three bucket calls act
+   on an abstract world) IS the model's insertion: instantiated with the model table as the world, the generated IsFull / AddCrt /
+   UpdateMaxProbe of the bucket class and the generated GetStartBucketIndex / GetNextBucketIndex, it throws exactly when the
+   model's probing finds no room, and otherwise yields the model's table for the real AddCrt arguments (hashCode, logBucketCount,
+   probe).  For ANY hash function.  The extracted generated function is also what the model driver runs for every insertion of the
+   table correspondence against the real HashSet (corr:table-model-vs-HashSet). *)
+Theorem C13_open2n2_generated_addnogrow_is_model_add :
+  forall mc n hash s mCount k, 0 <= n <= 63 ->
+  OpenInstances.o2_gen_add mc n hash s mCount k =
+  match OpenTable.first_free n Gen_Open2N2.GetNextBucketIndex BucketOps.O2.st BucketOps.O2.full s (HSAddRefine.home n hash k) 0 (Z.to_nat (2 ^ n)) with
+  | None => Exn
+  | Some p => match OpenInstances.o2_add mc n (HSAddRefine.home n hash) s k (OpenInstances.mk_arg (hash k) n (Z.of_nat p)) with
+              | Some s' => Ok (0, s', mCount) | None => Stuck end
+  end.
+Proof. exact OpenInstances.open2n2_generated_addnogrow. Qed.
+Print Assumptions C13_open2n2_generated_addnogrow_is_model_add.
+Theorem C13_open8_openn1_generated_addnogrow_is_model_add :
+  forall rv mc n hash s mCount k, 0 <= n <= 63 ->
+  OpenInstances.n1_gen_add rv mc n hash s mCount k =
+  match OpenTable.first_free n Gen_Open8.GetNextBucketIndex (Z -> Z) (Gen_OpenN1_ops.IsFull rv mc) s (HSAddRefine.home n hash k) 0 (Z.to_nat (2 ^ n)) with
+  | None => Exn
+  | Some p => match OpenInstances.n1_add rv mc n (HSAddRefine.home n hash) s k (OpenInstances.mk_arg (hash k) n (Z.of_nat p)) with
+              | Some s' => Ok (0, s', mCount) | None => Stuck end
+  end.
+Proof. exact OpenInstances.open8_generated_addnogrow. Qed.
+Print Assumptions C13_open8_openn1_generated_addnogrow_is_model_add.
+(* hence the regenerated pvAddNogrow throws "Hash table is full" on a reachable table only when every bucket is full *)
+Theorem C13_open2n2_generated_addnogrow_throws_only_if_all_buckets_full :
+  forall mc n hash ops mCount k,
+  1 <= mc <= 3 -> 0 <= n <= 63 -> (forall k, 0 <= hash k) ->
+  let h := HSAddRefine.home n hash in
+  let s := fold_left (OpenInstances.o2_step mc n h) ops (OpenInstances.o2_empty mc) in
+  OpenInstances.o2_gen_add mc n hash s mCount k = Exn ->
+  forall b, 0 <= b < 2 ^ n -> (Z.to_nat mc <= length (OpenTable.bk _ s b))%nat.
+Proof. exact OpenInstances.open2n2_generated_addnogrow_full_only_if_all_full. Qed.
+Print Assumptions C13_open2n2_generated_addnogrow_throws_only_if_all_buckets_full.
 
 (* The encoder and probe-step code regenerated from BucketOpen2N2<.,1,true>, <.,2,true> and <.,3,false> is
    syntactically the code the theorems above are about (<.,3,true>): they hold for Open2N2<1..3>, both variants. *)
